@@ -6,9 +6,10 @@ def main(argv):
     if not argv:
         print(__doc__ or 'usage: check <id> [--tier quick|thorough]'); return 2
     if argv[0] == 'setup':
-        for c in ('core',):
+        for c in ('core', 'symcc'):
             build_mir(c)
         n = Native('dev'); n.build()
+        n2 = Native('dev', crate='replay-symcc', binname='verif-replay-symcc'); n2.build()
         print('setup ok'); return 0
     if argv[0] == 'replay':
         from .replay import replay_file
